@@ -108,7 +108,8 @@ func vxHitStep(withOrigin bool, kinds []int) {
 	// ---- C06: what must not be stored never reaches the store (validation path)
 	if w.conn.count("set") > 0 {
 		vxCover("hit/stored")
-		vxAssert(calls >= 1 && kind != 0 && kind != 3, "C06/stored-without-full-origin-reply")
+		vxAssert(calls >= 1 && kind != 3, "C06/stored-without-origin-reply")
+		vxAssert(!q.noStore, "C06/stored-under-request-no-store")
 		if vo != nil {
 			vxAssert(!vxMustNotStore(vo, q.noStore, true), "C06/stored-what-must-not-be-stored")
 		}
